@@ -143,6 +143,11 @@ impl Stack {
         self.stack[frame.rp as usize + index] = value;
     }
 
+    #[cfg(boa_verif)]
+    pub(crate) fn verif_len(&self) -> usize {
+        self.stack.len()
+    }
+
     /// Truncate the stack to the given frame.
     pub(crate) fn truncate_to_frame(&mut self, frame: &CallFrame) {
         self.stack.truncate(frame.frame_pointer());
@@ -788,6 +793,9 @@ impl Context {
             }
             self.instructions_remaining -= 1;
         }
+
+        #[cfg(boa_verif)]
+        crate::verif::log_depths(self, opcode);
 
         #[cfg(feature = "trace")]
         if self.vm.trace || self.vm.frame().code_block.traceable() {
